@@ -545,3 +545,84 @@ Proof.
   inversion Ha as [|? ? [H1 H2] _]; subst. rewrite H1. cbn [negb andb].
   destruct (cmp_node ks a b); try reflexivity. rewrite andb_true_r. specialize (H2 eq_refl). lia.
 Qed.
+
+(* ================================================================== Part 4: --diff of a data set with itself *)
+Lemma find_node_in tbl : names_sorted tbl -> forall n, In n tbl -> find_node tbl (n_name n) = Some n.
+Proof.
+  unfold names_sorted. induction tbl as [|x t IH]; intros Hs n Hin; [destruct Hin|].
+  cbn [map] in Hs. apply StronglySorted_inv in Hs. destruct Hs as [Hs Hx].
+  cbn [find_node]. destruct Hin as [->|Hin].
+  - rewrite N.eqb_refl. reflexivity.
+  - rewrite Forall_forall in Hx. assert (n_name x < n_name n) by (apply Hx, in_map, Hin).
+    replace (n_name x =? n_name n) with false by lia. apply IH; assumption.
+Qed.
+
+Lemma sdiff_same x : sdiff x x = (false, 0).
+Proof. unfold sdiff. rewrite N.leb_refl, N.sub_diag. reflexivity. Qed.
+
+Theorem diff_self_zero tbl : names_sorted tbl ->
+  diff_pairs tbl tbl = map (fun n => (n, n)) tbl
+  /\ forallb diff_is_zero (map diff_cols (diff_pairs tbl tbl)) = true.
+Proof.
+  intro Hs.
+  assert (diff_pairs tbl tbl = map (fun n => (n, n)) tbl) as E.
+  { unfold diff_pairs.
+    assert (filter (fun p => match find_node tbl (n_name p) with Some _ => false | None => true end) tbl = []) as ->.
+    { assert (forall l, (forall n, In n l -> In n tbl) ->
+                        filter (fun p => match find_node tbl (n_name p) with Some _ => false | None => true end) l = []) as G.
+      { induction l as [|x t IH]; intro Hin; [reflexivity|]. cbn [filter].
+        rewrite (find_node_in tbl Hs x) by (apply Hin; left; reflexivity).
+        apply IH. intros n Hn. apply Hin. right. exact Hn. }
+      apply G. auto. }
+    cbn [map]. rewrite app_nil_r. apply map_ext_in. intros n Hn.
+    rewrite (find_node_in tbl Hs n Hn). reflexivity. }
+  split; [exact E|]. rewrite E, map_map. apply forallb_forall. intros d Hd.
+  apply in_map_iff in Hd. destruct Hd as (n & <- & _). cbn [diff_cols]. rewrite !sdiff_same. reflexivity.
+Qed.
+
+Lemma finish_names tbl : map n_name (map finish_node tbl) = map n_name tbl.
+Proof. rewrite map_map. apply map_ext. reflexivity. Qed.
+
+Lemma report_names_sorted c : names_sorted (report c).
+Proof.
+  unfold report, table_of_rows, names_sorted. rewrite finish_names.
+  apply (table_lookup (c_names c) (all_rows c) []). constructor.
+Qed.
+
+(* ================================================================== Part 5: the printed time *)
+Lemma fmt_time_us ns : 0 < ns -> ns < 1000000 -> fmt_time ns = Some (ns / 1000, ns mod 1000, 0).
+Proof.
+  intros H0 H1. unfold fmt_time. replace (ns =? 0) with false by lia.
+  unfold llabs64. replace (ns <? 9223372036854775808) with true by lia.
+  cbn [limits unit_loop next_limit nth].
+  replace (ns / 1000 <? 1000) with true by lia. cbn [orb].
+  replace (999 <? ns / 1000) with false by lia. reflexivity.
+Qed.
+
+(* below one millisecond the printed figure is the value itself *)
+Theorem fmt_time_exact ns d f u : 0 < ns -> ns < 1000000 -> fmt_time ns = Some (d, f, u) ->
+  u = 0 /\ ns = d * 1000 + f /\ f < 1000.
+Proof. intros H0 H1. rewrite fmt_time_us by assumption. intro E. injection E as <- <- <-. lia. Qed.
+
+(* up to 24 minutes the printed figure is the value truncated to the unit *)
+Theorem fmt_time_ok ns : ns < 1440000000000 -> ok_cell ns (fmt_time ns) = true.
+Proof.
+  intro H. unfold fmt_time. destruct (N.eqb_spec ns 0) as [->|NZ]; [reflexivity|].
+  unfold llabs64. replace (ns <? 9223372036854775808) with true by lia.
+  cbn [limits unit_loop next_limit nth orb].
+  destruct (N.ltb_spec (ns / 1000) 1000) as [A|A]; cbn [orb].
+  { replace (999 <? ns / 1000) with false by lia. cbn [ok_cell unit_ns N.of_nat]. lia. }
+  destruct (N.ltb_spec (ns / 1000 / 1000) 1000) as [B|B]; cbn [orb].
+  { replace (999 <? ns / 1000 / 1000) with false by lia. cbn [ok_cell unit_ns N.of_nat Pos.of_succ_nat Pos.succ]. lia. }
+  destruct (N.ltb_spec (ns / 1000 / 1000 / 1000) 60) as [C|C]; cbn [orb].
+  { replace (999 <? ns / 1000 / 1000 / 1000) with false by lia. cbn [ok_cell unit_ns N.of_nat Pos.of_succ_nat Pos.succ]. lia. }
+  destruct (N.ltb_spec (ns / 1000 / 1000 / 1000 / 60) 24) as [D|D]; cbn [orb].
+  { replace (999 <? ns / 1000 / 1000 / 1000 / 60) with false by lia. cbn [ok_cell unit_ns N.of_nat Pos.of_succ_nat Pos.succ]. lia. }
+  exfalso. lia.
+Qed.
+
+(* ... and from 24 minutes on it is not: minutes are divided by 24 to give "hours" *)
+Lemma fmt_time_hours_refuted :
+  let ns := 35 * 60 * 1000000000 in
+  fmt_time ns = Some (1, 11, 4) /\ ok_cell ns (fmt_time ns) = false.
+Proof. vm_compute. split; reflexivity. Qed.
